@@ -30,6 +30,16 @@ CLAIMED = {
    note=("trusted: Lean kernel + standard axioms; hand-written model tied by correspondence on generated cases; the JSON round trip and "
          "ReplaceTypedDictsWithStubs clauses are observed on the implementation (direct oracle), not yet modelled (partial)"),
    technique="Lean 4 proof (invariant by well-founded induction) over a hand-written model + differential correspondence check"),
+ "C05": dict(
+   text=("Lean 4 theorems: under the tight reading of Any (Any admits nothing) every observed value is still a member of the inferred "
+         "type, so Any only ever stands for empty containers (MT.C05.any_only_for_empty_containers); a key of a merged TypedDict is "
+         "required iff every observed dict has it and optional iff some has it and some lacks it (merged_keys, merged_shape). The full "
+         "lock-step witness statement (every union alternative inhabited, exact classes) is a Lean definition (InferWitnessed / witnessed) "
+         "evaluated on the model and, through an independent Python twin, on the implementation for every generated multiset."),
+   ref="DESIGN.md section 4 C05",
+   note=("partial: InferWitnessed is stated and evaluated, not proved; trusted: Lean kernel + standard axioms, hand-written model tied "
+         "by correspondence (infer + witness oracle pair incl. widened negative controls)"),
+   technique="Lean 4 proof over a hand-written model + executable formal witness oracle + differential correspondence check"),
 }
 
 NOT_YET = "check not built yet (build in progress; see DESIGN.md section 10)"
